@@ -4,6 +4,8 @@ import (
 	"fmt"
 	"math/rand/v2"
 	"os"
+	"regexp"
+	"sort"
 	"strings"
 	"sync"
 
@@ -70,8 +72,8 @@ newline"`)
 		code("defun", "fx-do", `(defun fx-do (n) (do ((i 0 (1+ i)) (acc nil (cons i acc))) ((>= i n) acc)))`, "0", "3")
 		code("defmacro", "fx-mac", "(defmacro fx-mac (a &rest body) \"a macro\" (cons 'progn (cons a body)))", "1", "1 2 3")
 		fixedBlock = append(fixedBlock,
-			Case{Mode: "code", Kind: "defun", Feat: "backquote", Name: "fx-bq", Src: "(defun fx-bq (n) `(a ,n ,@(list n n) b))", Probes: []string{"1"}, Margins: m},
-			Case{Mode: "code", Kind: "defmacro", Feat: "backquote", Name: "fx-bqm", Src: "(defmacro fx-bqm (a &rest body) `(progn ,a ,@body))", Probes: []string{"1", "1 2 3"}, Margins: m},
+			Case{Mode: "code", Kind: "defun", Name: "fx-bq", Src: "(defun fx-bq (n) `(a ,n ,@(list n n) b))", Probes: []string{"1"}, Margins: m},
+			Case{Mode: "code", Kind: "defmacro", Name: "fx-bqm", Src: "(defmacro fx-bqm (a &rest body) `(progn ,a ,@body))", Probes: []string{"1", "1 2 3"}, Margins: m},
 			Case{Mode: "code", Kind: "call", Name: "", Src: deepNest(14), Margins: []int{20}})
 		code("lambda", "", `(lambda (x) (* x 2))`, "4")
 		code("lambda", "", `(lambda (x &optional (y 3)) "doc" (list x y))`, "1", "1 2")
@@ -80,10 +82,8 @@ newline"`)
 		seed := uint64(0)
 		rnd := func() *rand.Rand { seed++; return rand.New(rand.NewPCG(77, seed)) }
 		for _, kind := range []string{"defun", "lambda", "defmacro", "call"} {
-			for _, feat := range codeFeats[kind] {
-				for j := 0; j < 3; j++ {
-					fixedBlock = append(fixedBlock, buildCodeCase(rnd(), kind, feat, fmt.Sprintf("x%d", seed)))
-				}
+			for j := 0; j < 2; j++ {
+				fixedBlock = append(fixedBlock, buildCodeCase(rnd(), kind, "", fmt.Sprintf("x%d", seed)))
 			}
 		}
 		for _, kind := range []string{"package", "flavor", "flavor-instance", "class", "class-instance", "generic"} {
@@ -212,13 +212,24 @@ func worldTrouble(x *fw.Ctx, c Case, which string, wr WorldResult) bool {
 	return false
 }
 
+var usedBy = regexp.MustCompile(`Used By: .*? Variables:`)
+
 func probeOut(src string, o Out) string {
 	if o.Err != nil {
 		return "error:" + errClass(o.Err)
 	}
 	if strings.HasPrefix(src, "(documentation ") || strings.HasPrefix(src, "(with-output-to-string (s) (describe") {
 		// documentation is re-flowed by the printer and by describe
-		return flat(o.Val)
+		v := flat(o.Val)
+		if strings.Contains(src, "(describe (find-package") {
+			// the users of a package are listed in the order they were defined
+			v = usedBy.ReplaceAllStringFunc(v, func(m string) string {
+				names := strings.Fields(m)
+				sort.Strings(names[2 : len(names)-1])
+				return strings.Join(names, " ")
+			})
+		}
+		return v
 	}
 	return o.Val
 }
